@@ -161,7 +161,7 @@ Stream& StreamFollower::find_stream(const IPv4Address& client_addr, uint16_t cli
 Stream& StreamFollower::find_stream(const IPv6Address& client_addr, uint16_t client_port,
                                     const IPv6Address& server_addr, uint16_t server_port) {
     stream_id identifier(stream_id::serialize(client_addr), client_port,
-                         stream_id::serialize(server_addr), server_port);
+                         stream_id::serialize(server_addr), server_port, true);
     return find_stream(identifier);
 }
 
